@@ -6,7 +6,7 @@ from vlib import hexs, unhexs
 
 
 def run(ck):
-    ck.prove(["AsModel.Theorems.C13", "AsModel.Theorems.C13Parse"])
+    ck.prove(["AsModel.Theorems.C13", "AsModel.Theorems.C13Parse", "AsModel.Theorems.C13Term"])
     ck.build_harness("inproc")
     inputs, outs = t1.run(ck)
     dist = {}
@@ -41,7 +41,7 @@ def run(ck):
     mm = t2.record(ck, res, ("status",), "which accepted inputs reach a panic site during expansion")
     if mm and not [v for v in ck.violations if not v["no_input"]]:
         ck.report("corr:T2-status", "the model's panic-site prediction no longer matches the implementation", dict(first=mm[:3], broken="correspondence T2/status; C13_expand_no_panic depends on it"), no_input=True)
-    ck.assumptions += ["syn's own parsers (Expr, Path, ExprClosure, literals) are trusted not to panic; stack exhaustion on deeply nested input is not explored; the parser is modelled (Parse.lean, with syn's answers as oracle tables quantified universally in the theorems) and tied on every T1 input; None-delimited groups (macro_rules fragments) are not in the parser model; the model parser recurses on fuel, out-of-fuel is a third outcome in the theorems and is never observed within the budget the driver uses (2 x tokens + 16)"]
+    ck.assumptions += ["syn's own parsers (Expr, Path, ExprClosure, literals) are trusted not to panic; stack exhaustion on deeply nested input is not explored; the parser is modelled (Parse.lean, with syn's answers as oracle tables quantified universally in the theorems) and tied on every T1 input; None-delimited groups (macro_rules fragments) are not in the parser model; the model parser recurses on fuel; C13_no_out_of_fuel proves that 2 x tokens + 8 suffices for every token stream and oracle (the driver uses 2 x tokens + 16)"]
 
 
 def re_key(msg):
